@@ -141,11 +141,11 @@ func buildCkpt(r *lib.Rng, z *zoo) (*object, error) {
 		return nil, err
 	}
 	shared := []compose.Option{
-		compose.WithLambdaOption(lopt{Val: "S"}).DesignateNode("b"),
-		compose.WithCallbacks(sharedHandler("so")),
+		sharedLopt("S").DesignateNode("b"),
+		sharedCb("so"),
 	}
 	if withSub {
-		shared = append(shared, compose.WithLambdaOption(lopt{Val: "S2"}).DesignateNodeWithPath(compose.NewNodePath("sg", "i1")))
+		shared = append(shared, sharedLopt("S2").DesignateNodeWithPath(compose.NewNodePath("sg", "i1")))
 	}
 	// model: the uninterrupted run, plus the trail of interrupts the compile options imply
 	d := &dGraph{dag: dag, state: true}
@@ -465,7 +465,7 @@ func buildComp(r *lib.Rng, z *zoo) (*object, error) {
 		compose.WithRetrieverOption(retriever.WrapImplSpecificOptFn(sh)),
 		compose.WithEmbeddingOption(embedding.WrapImplSpecificOptFn(sh)).DesignateNode("emb"),
 		compose.WithChatModelOption(model.WrapImplSpecificOptFn(func(o *mopt) { o.Val += "S" })),
-		compose.WithCallbacks(sharedHandler("sd")).DesignateNode("ret", "idx"),
+		sharedCb("sd").DesignateNode("ret", "idx"),
 	}
 	d := &dGraph{dag: !pregel}
 	d.node("tpl", "FTpl", 8)
@@ -601,7 +601,7 @@ func buildReent(r *lib.Rng, z *zoo) (*object, error) {
 		return nil, err
 	}
 	self = run
-	shared := []compose.Option{compose.WithLambdaOption(lopt{Val: "S"}).DesignateNode("a"), compose.WithCallbacks(sharedHandler("so"))}
+	shared := []compose.Option{sharedLopt("S").DesignateNode("a"), sharedCb("so")}
 	d := &dGraph{dag: dag, state: true}
 	d.node("a", fn1("FV", "a"), 0, "pre=HPreReent")
 	d.node("rec", "FRec", -1)
@@ -697,9 +697,9 @@ func buildMulti(r *lib.Rng, z *zoo) (*object, error) {
 		return nil, err
 	}
 	shared := []compose.Option{
-		compose.WithLambdaOption(lopt{Val: "S"}).DesignateNodeWithPath(compose.NewNodePath("sub", "c2"), compose.NewNodePath("e0", "w1")),
-		compose.WithLambdaOption(lopt{Val: "S1"}).DesignateNode("m1", "e1"),
-		compose.WithCallbacks(sharedHandler("sp")).DesignateNodeWithPath(compose.NewNodePath("sub", "c1")),
+		sharedLopt("S").DesignateNodeWithPath(compose.NewNodePath("sub", "c2"), compose.NewNodePath("e0", "w1")),
+		sharedLopt("S1").DesignateNode("m1", "e1"),
+		sharedCb("sp").DesignateNodeWithPath(compose.NewNodePath("sub", "c1")),
 	}
 	dCh := &dGraph{}
 	dCh.node("c1", fn1("FM", "c1"), 0)
@@ -802,7 +802,7 @@ func buildEmbed(r *lib.Rng, z *zoo) (*object, error) {
 	}
 	shared := []compose.Option{
 		compose.WithChatModelOption(model.WrapImplSpecificOptFn(func(o *mopt) { o.Val += "S" })).DesignateNodeWithPath(compose.NewNodePath("ag", "chat")),
-		compose.WithCallbacks(sharedHandler("so")),
+		sharedCb("so"),
 	}
 	d := &dGraph{dag: true}
 	d.node("ag", "(FSub "+d1.term()+")", -1, "out=ag")
